@@ -1141,7 +1141,7 @@ class Emitter:
             else:
                 B.append('  *%s = %s;' % (s.val(p), s.val(v)))
             if atomic:
-                B.append('  IR2C_ATOMIC_END();')
+                B.append('  IR2C_EVENT_STORED(%s, "%s"); IR2C_ATOMIC_END();' % (s.val(p), order))
         elif op == 'atomicrmw':
             vol = tk.accept('volatile')
             rop = tk.next()[1]
